@@ -34,6 +34,9 @@ def position (y : Q) : List Q → Nat
 def rankOf (row : List Q) (t : Nat) : Option Nat :=
   row[t]?.map fun y => position y (sortedDesc row)
 
+/-- the API takes the target as an integer: outside `[0, C)` there is no such candidate. -/
+def rankOfI (row : List Q) (t : Int) : Option Nat := if t < 0 then none else rankOf row t.toNat
+
 /-- hit@k: the target is ranked among the first `k` (`k = none`: no cut-off). -/
 def hit (k : Option Nat) (rank : Nat) : Q :=
   match k with
@@ -45,6 +48,14 @@ def rr (k : Option Nat) (rank : Nat) : Q :=
   match k with
   | none => 1 / ((rank : Q) + 1)
   | some k => if rank < k then 1 / ((rank : Q) + 1) else 0
+
+/-- per-sample hit rate of a batch (`none`: some target is not a candidate). -/
+def hitRate (k : Option Nat) (rows : List (List Q)) (target : List Int) : Option (List Q) :=
+  (rows.zip target).mapM fun p => (rankOfI p.1 p.2).map (hit k)
+
+/-- per-sample reciprocal rank of a batch. -/
+def reciprocalRank (k : Option Nat) (rows : List (List Q)) (target : List Int) : Option (List Q) :=
+  (rows.zip target).mapM fun p => (rankOfI p.1 p.2).map (rr k)
 
 /-! ### retrieval by counting -/
 
